@@ -49,6 +49,11 @@ add("C19", "exploration",
     "the fake dbutils is the trusted stand-in for DBFS (head/put/cp/rm semantics); Spark frames not covered",
     "runtime monitoring: file-effect monitor over a fake dbutils + value oracle", "E4-store")
 
+add("C17", "exploration",
+    "Monitor at keep/load/fetch_blob with recording proxies on every registered codec instance: 19 result values (text, bytes, None, objects, frames, user-codec types) are written, codec registrations are changed (new codecs claiming the same types through both registration APIs, built-ins re-registered in reverse), then everything is read in the same process, through a new store object and in another process; oracle = value and type equal, decoding codec ref == ref recorded at write time, str/bytes blobs byte-identical to the UTF-8 text / the bytes. Held on the runs observed.",
+    "bytearray may come back as bytes; frames limited to what parquet round-trips; fake dbutils for DBFS",
+    "runtime monitoring: recording proxies on codec instances + raw-byte inspection of blob files", "E4-store")
+
 NOT_YET = {}
 
 
